@@ -993,21 +993,20 @@ func (r *RootMetadata) AddHook(stages []tuf.HookStage, hookName string, principa
 		r.Hooks = map[tuf.HookStage][]*Hook{}
 	}
 
+	// Validate every stage before adding the hook to any of them so that a
+	// refused addition leaves the metadata unchanged
 	for _, stage := range stages {
 		if err := stage.IsValid(); err != nil {
 			return nil, err
 		}
-
-		if r.Hooks[stage] == nil {
-			r.Hooks[stage] = []*Hook{}
-		} else {
-			for _, existingHook := range r.Hooks[stage] {
-				if existingHook.Name == hookName {
-					return nil, tuf.ErrDuplicatedHookName
-				}
+		for _, existingHook := range r.Hooks[stage] {
+			if existingHook.Name == hookName {
+				return nil, tuf.ErrDuplicatedHookName
 			}
 		}
+	}
 
+	for _, stage := range stages {
 		r.Hooks[stage] = append(r.Hooks[stage], newHook)
 	}
 
